@@ -57,15 +57,15 @@ theorem verifyAuth_spec (H : Bytes → Bytes) (hH : ∀ x, (H x).length = 16)
 theorem parseAttributesLoop_spec (data : Bytes) : ∀ (k off : Nat) (acc : List Attr) (n : Nat),
     data.length - off ≤ k → off ≤ data.length →
     ∃ r m, parseAttributesLoop data off acc n = .ok (r, m) ∧ m ≤ n + (data.length - off) ∧
-      (r.isSome = attrsWF (data.drop off)) := by
+      (r.isSome = attrsWF_strict (data.drop off)) := by
   intro k
   induction k with
   | zero =>
     intro off acc n hk hoff
-    rw [parseAttributesLoop, dif_neg (by omega)]
+    rw [parseAttributesLoop, dif_neg (by omega), if_neg (by omega)]
     refine ⟨_, _, rfl, by omega, ?_⟩
     have : data.drop off = [] := List.drop_eq_nil_of_le (by omega)
-    rw [this]; simp [attrsWF]
+    rw [this]; simp [attrsWF_strict]
   | succ k ih =>
     intro off acc n hk hoff
     rw [parseAttributesLoop]
@@ -79,7 +79,7 @@ theorem parseAttributesLoop_spec (data : Bytes) : ∀ (k off : Nat) (acc : List 
       split
       · rename_i hbad
         refine ⟨_, _, rfl, by omega, ?_⟩
-        rw [hd, attrsWF]
+        rw [hd, attrsWF_strict]
         simp only [List.length_drop, Option.isSome_none]
         rcases hbad with hb | hb
         · have : ¬ (2 ≤ data[off + 1].toNat) := by omega
@@ -91,24 +91,27 @@ theorem parseAttributesLoop_spec (data : Bytes) : ∀ (k off : Nat) (acc : List 
         obtain ⟨r, m, e, hm, hr⟩ := ih (off + data[off + 1].toNat) (⟨data[off], _⟩ :: acc) (n + 1)
           (by omega) (by omega)
         refine ⟨r, m, e, by omega, ?_⟩
-        rw [hr, hd, attrsWF]
+        rw [hr, hd, attrsWF_strict]
         simp only [List.length_drop, List.drop_drop]
         have c1 : 2 ≤ data[off + 1].toNat := by omega
         have c2 : data[off + 1].toNat - 2 ≤ data.length - (off + 2) := by omega
         have c3 : off + 2 + (data[off + 1].toNat - 2) = off + data[off + 1].toNat := by omega
         simp [c1, c2, c3]
-    · refine ⟨_, _, rfl, by omega, ?_⟩
-      -- fewer than two bytes left
+    · -- fewer than two bytes left
       rename_i h
       by_cases h0 : off < data.length
       · have hd : data.drop off = [data[off]] := by
           rw [List.drop_eq_getElem_cons h0, List.drop_eq_nil_of_le (by omega)]
-        rw [hd]; simp [attrsWF]
+        rw [if_pos (by omega)]
+        refine ⟨_, _, rfl, by omega, ?_⟩
+        rw [hd]; simp [attrsWF_strict]
       · have : data.drop off = [] := List.drop_eq_nil_of_le (by omega)
-        rw [this]; simp [attrsWF]
+        rw [if_neg (by omega)]
+        refine ⟨_, _, rfl, by omega, ?_⟩
+        rw [this]; simp [attrsWF_strict]
 
 theorem parseAttributes_spec (data : Bytes) :
-    ∃ r m, parseAttributes data = .ok (r, m) ∧ m ≤ data.length + 1 ∧ r.isSome = attrsWF data := by
+    ∃ r m, parseAttributes data = .ok (r, m) ∧ m ≤ data.length + 1 ∧ r.isSome = attrsWF_strict data := by
   obtain ⟨r, m, e, hm, hr⟩ := parseAttributesLoop_spec data _ 0 [] 1 (Nat.le_refl _) (by omega)
   exact ⟨r, m, e, by omega, by simpa using hr⟩
 
@@ -175,11 +178,11 @@ theorem receive_spec (H : Bytes → Bytes) (hH : ∀ x, (H x).length = 16) (secr
         cases ra with
         | none =>
           refine ⟨none, _, rfl, by dsimp only; omega, ?_, by intro req h; cases h⟩
-          have : attrsWF ((packetOf buf).drop 20) = false := by
+          have : attrsWF_strict ((packetOf buf).drop 20) = false := by
             unfold packetOf; rw [← hra]; rfl
           simp [authentic, this]
         | some attrs =>
-          have hwf : attrsWF ((packetOf buf).drop 20) = true := by
+          have hwf : attrsWF_strict ((packetOf buf).drop 20) = true := by
             unfold packetOf; rw [← hra]; rfl
           dsimp only
           by_cases h43 : buf[0] = 43
@@ -208,14 +211,69 @@ theorem receive_spec (H : Bytes → Bytes) (hH : ∀ x, (H x).length = 16) (secr
         simp only [List.append_assoc] at hv'
         simp [authentic, hv']
 
+/-! ### the response is a well-formed RADIUS packet -/
+
+theorem putBE_length : ∀ (n v : Nat), (putBE n v).length = n := by
+  intro n
+  induction n with
+  | zero => intro v; rfl
+  | succ n ih => intro v; simp [putBE, ih]
+
+theorem beNat_putBE2 (v : Nat) (hv : v < 65536) : beNat (putBE 2 v) = v := by
+  simp [putBE, beNat]
+  omega
+
+/-- one TLV in front of a well-formed area -/
+theorem attrsWF_strict_tlv (t l : UInt8) (v rest : Bytes) (h2 : 2 ≤ l.toNat) (hv : v.length = l.toNat - 2) :
+    attrsWF_strict (t :: l :: (v ++ rest)) = attrsWF_strict rest := by
+  rw [attrsWF_strict]
+  have h3 : l.toNat - 2 ≤ (v ++ rest).length := by simp; omega
+  have h4 : (v ++ rest).drop (l.toNat - 2) = rest := by
+    rw [← hv]; simp
+  simp [h2, h4]
+  intro _; omega
+
+theorem respAttrs_wf (errorCause : Nat) (message : Bytes) :
+    attrsWF_strict (respAttrs errorCause message) = true ∧ (respAttrs errorCause message).length ≤ 261 := by
+  unfold respAttrs
+  dsimp only
+  have hm : (message.take 253).length ≤ 253 := by simp; omega
+  generalize message.take 253 = msg at hm
+  have hmsg : attrsWF_strict (if msg ≠ [] then [18, UInt8.ofNat ((2 + msg.length) % 256)] ++ msg else []) = true := by
+    split
+    · have e : (UInt8.ofNat ((2 + msg.length) % 256)).toNat = 2 + msg.length := by
+        simp [UInt8.toNat_ofNat]; omega
+      have := attrsWF_strict_tlv 18 (UInt8.ofNat ((2 + msg.length) % 256)) msg [] (by omega) (by omega)
+      simp only [List.append_nil] at this
+      show attrsWF_strict (18 :: UInt8.ofNat ((2 + msg.length) % 256) :: msg) = true
+      rw [this]; simp [attrsWF_strict]
+    · simp [attrsWF_strict]
+  have hlen : (if msg ≠ [] then [18, UInt8.ofNat ((2 + msg.length) % 256)] ++ msg else []).length ≤ 255 := by
+    split <;> simp <;> omega
+  generalize (if msg ≠ [] then [18, UInt8.ofNat ((2 + msg.length) % 256)] ++ msg else []) = tail at hmsg hlen
+  split
+  · have := attrsWF_strict_tlv 101 6 (putBE 4 (errorCause % 4294967296)) tail (by decide) (by rw [putBE_length]; decide)
+    constructor
+    · show attrsWF_strict (101 :: 6 :: (putBE 4 (errorCause % 4294967296) ++ tail)) = true
+      rw [this]; exact hmsg
+    · simp [putBE_length]; omega
+  · constructor
+    · simpa using hmsg
+    · simp; omega
+
 /-- `sendResponse` : identifier and Response Authenticator -/
 theorem sendResponse_spec (H : Bytes → Bytes) (hH : ∀ x, (H x).length = 16) (secret : Bytes)
     (code id : UInt8) (reqAuth : Bytes) (errorCause : Nat) (message : Bytes)
     (r : Bytes) (hr : r = sendResponse H secret code id reqAuth errorCause message) :
     r[0]? = some code ∧ r[1]? = some id ∧
-    (r.take 20).drop 4 = H (r.take 4 ++ reqAuth ++ r.drop 20 ++ secret) := by
+    (r.take 20).drop 4 = H (r.take 4 ++ reqAuth ++ r.drop 20 ++ secret) ∧
+    lengthField r = r.length ∧ attrsWF_strict (r.drop 20) = true := by
   have hput : (putBE 2 ((20 + (respAttrs errorCause message).length) % 65536)).length = 2 := by
     simp [putBE]
+  obtain ⟨hwf, hal⟩ := respAttrs_wf errorCause message
+  have hbe : beNat (putBE 2 ((20 + (respAttrs errorCause message).length) % 65536)) =
+      20 + (respAttrs errorCause message).length := by
+    rw [Nat.mod_eq_of_lt (by omega)]; exact beNat_putBE2 _ (by omega)
   unfold sendResponse at hr
   dsimp only at hr
   generalize hp : putBE 2 ((20 + (respAttrs errorCause message).length) % 65536) = p at *
@@ -229,6 +287,9 @@ theorem sendResponse_spec (H : Bytes → Bytes) (hH : ∀ x, (H x).length = 16) 
   subst hr
   refine ⟨by simp, by simp, ?_⟩
   have l4 : ([code, id] ++ p).length = 4 := by simp [hput]
+  have t2 : ((([code, id] ++ p) ++ dg ++ attrs).take 4).drop 2 = p := by
+    rw [List.append_assoc, List.take_append_of_le_length (by omega), List.take_of_length_le (by omega)]
+    simp
   have t4 : (([code, id] ++ p) ++ dg ++ attrs).take 4 = [code, id] ++ p := by
     rw [List.append_assoc, List.take_append_of_le_length (by omega), List.take_of_length_le (by omega)]
   have t20 : (([code, id] ++ p) ++ dg ++ attrs).take 20 = [code, id] ++ p ++ dg := by
@@ -239,7 +300,11 @@ theorem sendResponse_spec (H : Bytes → Bytes) (hH : ∀ x, (H x).length = 16) 
   have d4 : ([code, id] ++ p ++ dg).drop 4 = dg := by
     rw [List.drop_append_of_le_length (by omega), List.drop_of_length_le (by omega)]
     simp
-  rw [t4, t20, d20, d4, ← hd]
+  refine ⟨by rw [t4, t20, d20, d4, ← hd], ?_, by rw [d20]; exact hwf⟩
+  unfold lengthField
+  rw [t2, hbe]
+  simp [hput, hc]
+  omega
 
 theorem applyAttr_ok (k : Kind) (f : Fields) (a : Attr) : ∃ f', applyAttr k f a = .ok f' := by
   unfold applyAttr
